@@ -440,7 +440,7 @@ func genCase(t *rapid.T) *Case {
 		Backend:    rapid.SampledFrom([]string{"channel", "queue", "deque", "deque", "queue-bounded", "lifo", "queue-filtered", "queue-shared", "chan-shedding", "deque-bounded", "deque-quota", "queue-quota", "chan-polling"}).Draw(t, "backend"),
 		Capacity:   rapid.IntRange(1, 4).Draw(t, "capacity"),
 		Parallel:   rapid.Bool().Draw(t, "parallel"),
-		Workers:    rapid.IntRange(0, 3).Draw(t, "workers"),
+		Workers:    rapid.SampledFrom([]int{-2, -1, 0, 0, 1, 1, 2, 3}).Draw(t, "workers"), // "if unset this defaults to 1"
 		Subs:       rapid.IntRange(1, 3).Draw(t, "subscribers"),
 		ReadYield:  rapid.IntRange(0, 4).Draw(t, "readYield"),
 		ReaderLate: rapid.Bool().Draw(t, "readerLate"),
